@@ -84,7 +84,7 @@ fn walk(p: &P, hidden: bool, in_adj: bool, v: &mut Visible) {
     match p {
         P::Switch(n) | P::ReqFlag(n) | P::Flag(n) => names_row(n, None, hidden, in_adj, v),
         P::Arg { names, metavar, .. } => names_row(names, Some(metavar), hidden, in_adj, v),
-        P::Pos { metavar, help, .. } | P::AnyKv { metavar, help } => {
+        P::Pos { metavar, help, .. } | P::AnyKv { metavar, help, .. } => {
             if !hidden {
                 v.rows.push(Row::Pos { metavar: metavar.clone(), help: help.as_ref().map(first_paragraph), in_adjacent: in_adj });
             }
